@@ -6,8 +6,20 @@ design invariants on each, and emits the state with the verdict the specificatio
 harness rebuilds each state as a stub solver, applies the *real* mystic.termination objects and
 compares: truth value, info (set of docs), info='self', and the same for the condition rebuilt from
 its reported state/type.
+
+Concretisation.  An abstract state / condition of the specification has many concrete spellings, and
+the implementation may branch on the spelling.  Every replay therefore ROTATES the spelling
+deterministically (by state number and condition number, so that a quick run meets every spelling
+thousands of times): numbers as python float / python int (0 is falsy) / numpy.float64 / numpy.float32
+/ -0.0; counts as int / numpy.int64 / float / numpy.int32; arguments by keyword / by position / omitted
+where the abstract value is the documented default; histories as lists of python floats, numpy scalars,
+ints, float32, or an ndarray; populations as lists of lists, lists of arrays, 2-D arrays, int or float32
+arrays; compound conditions as And(a, b) / And((a, b)) / And([a, b]).  The unit of energy (TermMachine /
+TermPop variable `scale`) is applied here: the abstract energy e is the float e * 2**scale.
+A mismatch under a rotated spelling is re-tried in the plain spelling: if that one agrees, the violation
+key gets the suffix ':spelling'.
 """
-import sys, itertools, random
+import sys, itertools, random, math
 from harness.core import Check, tier_seed, assert_repo, main_guard
 from harness.tlc import run_tlc
 
@@ -41,26 +53,140 @@ class Stub(object):
             self.trialSolution = trial
 
 
-def build(mt, c):
-    k = c["k"]
-    if k == "VTR":
-        return mt.VTR(tolerance=tol(c["tol"]), target=float(c["t"]))
-    if k == "COG":
-        return mt.ChangeOverGeneration(tolerance=tol(c["tol"]), generations=none(c["g"]))
-    if k == "NCOG":
-        return mt.NormalizedChangeOverGeneration(tolerance=tol(c["tol"]), generations=none(c["g"]))
-    if k == "NCT":
-        fv = none(c["t"])
-        return mt.NormalizedCostTarget(fval=None if fv is None else float(fv), tolerance=tol(c["tol"]),
-                                       generations=none(c["g"]))
-    if k == "VTRCOG":
-        return mt.VTRChangeOverGeneration(ftol=tol(c["tol"]), gtol=tol(c["tol2"]), generations=none(c["g"]),
-                                          target=float(c["t"]))
-    if k == "EL":
-        return mt.EvaluationLimits(generations=none(c["g"]), evaluations=none(c["t"]))
-    if k == "SI":
-        return mt.SolverInterrupt()
-    raise ValueError(k)
+class _Obj(object):
+    pass
+
+
+# ------------------------------------------------------------------ concretisation: units and spellings
+def energy(m, s):
+    """the abstract energy / coordinate m in the unit 2**s"""
+    return float("inf") if m == INF else math.ldexp(float(m), s)
+
+
+def quantity(t, s):
+    """the abstract rational <<n, d>> in the unit 2**s"""
+    return math.ldexp(t[0] / t[1], s)
+
+
+def _integral(x):
+    return not math.isinf(x) and x == int(x) and abs(x) < 2 ** 62
+
+
+def _f32ok(x, s):
+    # float32 only where the whole state fits float32 (numpy compares a python float with a float32 IN float32)
+    import numpy
+    return abs(s) <= 100 and (math.isinf(x) or float(numpy.float32(x)) == x)
+
+
+REAL_SPELLINGS = ("float", "int", "numpy.float64", "numpy.float32", "-0.0")
+COUNT_SPELLINGS = ("int", "numpy.int64", "float", "numpy.int32")
+STYLES = ("keywords", "positional", "defaults-omitted")
+HIST_SPELLINGS = ("list[float]", "list[numpy.float64]", "list[int where integral]", "list[numpy.float32]",
+                  "ndarray", "list[float] with -0.0")
+POP_SPELLINGS = ("list[list[float]]", "list[ndarray]", "ndarray2d", "list[list[int where integral]]",
+                 "ndarray2d float32", "list[list[float]] with -0.0, numpy energies")
+
+
+def rot(k, n, salt=0):
+    """deterministic rotation: a number in range(k) for the n-th state, mixed so that it does not follow the order in
+    which TLC enumerates the states (n % k would pair every spelling with ever the same unit / shape)"""
+    h = ((n + 1) * 2654435761 + salt * 40503) & 0xffffffff
+    h ^= h >> 15
+    h = (h * 2246822519) & 0xffffffff
+    h ^= h >> 13
+    return h % k
+
+
+def spell_real(x, v, s=0):
+    import numpy
+    if x is None:
+        return None
+    v %= 5
+    if v == 1 and _integral(x):
+        return int(x)
+    if v == 2:
+        return numpy.float64(x)
+    if v == 3 and _f32ok(x, s):
+        return numpy.float32(x)
+    if v == 4 and x == 0:
+        return -0.0
+    return x
+
+
+def spell_count(n, v):
+    import numpy
+    if n is None:
+        return None
+    return (int(n), numpy.int64(n), float(n), numpy.int32(n))[v % 4]
+
+
+# factory, then (argument, kind, catalogue field, documented default) in positional order
+SIGNATURE = {
+    "VTR": ("VTR", (("tolerance", "r", "tol", 0.005), ("target", "r", "t", 0.0))),
+    "COG": ("ChangeOverGeneration", (("tolerance", "r", "tol", 1e-6), ("generations", "c", "g", 30))),
+    "NCOG": ("NormalizedChangeOverGeneration", (("tolerance", "r", "tol", 1e-4), ("generations", "c", "g", 10))),
+    "NCT": ("NormalizedCostTarget", (("fval", "r", "t", None), ("tolerance", "r", "tol", 1e-6), ("generations", "c", "g", 30))),
+    "VTRCOG": ("VTRChangeOverGeneration", (("ftol", "r", "tol", 0.005), ("gtol", "r", "tol2", 1e-6),
+                                           ("generations", "c", "g", 30), ("target", "r", "t", 0.0))),
+    "EL": ("EvaluationLimits", (("generations", "c", "g", None), ("evaluations", "c", "t", None))),
+    "SI": ("SolverInterrupt", ()),
+}
+
+
+def concrete(c, dims=(), s=0):
+    """the settings of catalogue entry c as plain python values (dims: the fields that are energies)"""
+    out = []
+    for name, kind, field, dflt in SIGNATURE[c["k"]][1]:
+        if kind == "c":
+            v = none(c[field])
+        elif field == "t":
+            v = None if (c["k"] == "NCT" and c["t"] == NONE) else energy(c["t"], s if "t" in dims else 0)
+        else:
+            v = quantity(c[field], s if field in dims else 0)
+        out.append((name, kind, v, dflt))
+    return out
+
+
+def build(mt, c, dims=(), s=0, v=0):
+    """the real condition for catalogue entry c, in spelling v (0 = the plain one: python floats / ints, keywords)"""
+    fac = getattr(mt, SIGNATURE[c["k"]][0])
+    if c.get("dflt"):
+        return fac()
+    style = v % 3
+    args = []
+    for j, (name, kind, val, dflt) in enumerate(concrete(c, dims, s)):
+        if style == 2 and (val is None if dflt is None else (val is not None and val == dflt)):
+            continue                     # the documented default: leave the argument out
+        sp = val if v == 0 else spell_count(val, v // 15 + j) if kind == "c" else spell_real(val, v + j, s)
+        args.append((name, sp))
+    if style == 1:
+        return fac(*[x for _, x in args])
+    return fac(**dict(args))
+
+
+def stub_spelled(st, sv):
+    """the solver of state st, history / counters in spelling sv (0 = plain)"""
+    import numpy
+    s = st.get("scale", 0)
+    base = [energy(m, s) for m in st["hist"]]
+    if sv == 1:
+        h = [numpy.float64(x) for x in base]
+    elif sv == 2:
+        h = [int(x) if _integral(x) else x for x in base]
+    elif sv == 3 and abs(s) <= 100:
+        h = [numpy.float32(x) for x in base]
+    elif sv == 4:
+        h = numpy.array(base, dtype=float)
+    elif sv == 5:
+        h = [-0.0 if x == 0 else x for x in base]
+    else:
+        h = base
+    o = _Obj()
+    o.energy_history = h
+    o.generations = numpy.int64(st["gens"]) if sv % 2 else st["gens"]
+    o._fcalls = [numpy.int64(st["fcalls"]) if sv % 2 else st["fcalls"]]
+    o._EARLYEXIT = int(st["exit"]) if sv % 3 == 1 else st["exit"]
+    return o
 
 
 def rebuild(mt, cond):
@@ -78,87 +204,236 @@ def docs(info):
 
 def new_check(a):
     return Check("C10", "model_checking", a.tier, a.seed,
-               rule="every reachable state of the TLA+ machines TermMachine (energy histories), TermPop "
-                    "(populations) and TermTree (And/Or/When trees x leaf valuations) is replayed on the real "
-                    "mystic.termination objects; a case = (state, condition); non-trivial = the spec says the "
+               rule="every reachable state of the TLA+ machines TermMachine (energy histories; also at other units of "
+                    "energy and with long histories / two-digit windows / the no-argument defaults), TermPop "
+                    "(populations, also at other units) and TermTree (And/Or/When trees x leaf valuations) and every "
+                    "script of TermExtra is replayed on the real mystic.termination objects, the concrete spelling "
+                    "of every input rotating; a case = (state, condition); non-trivial = the spec says the "
                     "condition is satisfied on a non-empty history/population, or the tree is compound")
 
 
-def sec_histories(ck, mt, a):
+HIST_RUNS = {   # which: (module, quick cfg, thorough cfg, name in the evidence)
+    "base": ("term/MC_TermQuick", None, ("term/MC_TermThorough", None), "TermMachine"),
+    "scale": ("term/MC_TermScale", "MC_TermScale_quick.cfg", ("term/MC_TermScale", "MC_TermScale_thorough.cfg"), "TermMachine[units]"),
+    "long": ("term/MC_TermLong", "MC_TermLong_quick.cfg", ("term/MC_TermLong", "MC_TermLong_thorough.cfg"), "TermMachine[long]"),
+}
+
+
+def sec_histories(ck, mt, a, which="base", corrupt=False):
     thorough = a.tier == "thorough"
+    legacy = getattr(a, "legacy", False)
     import warnings
     warnings.simplefilter("ignore")
     # ---------------------------------------------------------------- histories
-    r = run_tlc("term/MC_TermThorough" if thorough else "term/MC_TermQuick", workers=1, timeout=3000)
+    mod, cfg, th, name = HIST_RUNS[which]
+    if thorough:
+        mod, cfg = th
+    r = run_tlc(mod, cfg=cfg, workers=1, timeout=3000)
     if r.violated:
-        ck.violation("spec:" + r.violated, {"tlc": r.out[-4000:]}, "TLC: design invariant %s violated in TermMachine" % r.violated)
-    ck.mc(r, "TermMachine")
-    cat = r.printed[0]["catalogue"]
-    conds = [build(mt, c) for c in cat]
-    reb = [rebuild(mt, c) for c in conds]
-    for st in r.printed[1:]:
-        s = Stub(st["hist"], st["gens"], st["fcalls"], st["exit"])
-        sat = set(st["sat"])
-        for i, c in enumerate(conds, 1):
-            exp = i in sat
-            try:
-                got = c(s)
-                info = c(s, True)
-                got2 = reb[i - 1](s)
-            except Exception as ex:
-                got, info, got2 = "raised %r" % ex, "", None
-            ok = (got is exp or got == exp) and (info == (c.__doc__ if exp else "")) and got2 == got
-            ck.case(nontrivial=exp and len(st["hist"]) > 0, key=("h", i, tuple(st["hist"]), st["exit"]))
-            if not ok:
-                ck.violation("prim:%s" % cat[i - 1]["k"],
-                             {"condition": cat[i - 1], "doc": c.__doc__, "state": st, "expected": exp,
-                              "got": got, "info": info, "rebuilt": got2},
-                             "%s on history %s: spec says %s, mystic says %r (info %r, rebuilt %r)" % (
-                                 c.__doc__, s.energy_history, exp, got, info, got2))
-        ck.trace()
-    ck.sample({"history": r.printed[7]["hist"], "satisfied": [cat[i - 1] for i in r.printed[7]["sat"][:3]]})
+        ck.violation("spec:" + r.violated, {"tlc": r.out[-4000:]}, "TLC: design invariant %s violated in %s" % (r.violated, name))
+    ck.mc(r, name)
+    cat, dims = r.printed[0]["catalogue"], r.printed[0]["dims"]
+    suffix = "" if which == "base" else ":" + which
+    cache = {}
 
-def sec_populations(ck, mt, a):
+    def cond(i, s, v):
+        key = (i, s, v)
+        if key not in cache:
+            c = build(mt, cat[i], dims[i], s, v)
+            cache[key] = (c, rebuild(mt, c))
+        return cache[key]
+
+    def ask(c, rb, s, exp):
+        try:
+            got = c(s)
+            info = c(s, True)
+            got2 = rb(s)
+        except Exception as ex:
+            got, info, got2 = "raised %r" % ex, "", None
+        ok = (got is exp or (isinstance(got, bool) and got == exp)) and (info == (c.__doc__ if exp else "")) and got2 == got
+        return ok, got, info, got2
+
+    # the conditions created with no argument: their reported settings are the catalogue's (documented) defaults
+    for i, c in enumerate(cat):
+        if c.get("dflt"):
+            s0 = r.printed[1]["scale"]
+            real = list(mt.state(cond(i, s0, 0)[0]).values())[0]
+            want = dict((n_, v_) for n_, _, v_, _ in concrete(c, dims[i], s0))
+            ck.case(nontrivial=True, key=("defaults", c["k"]))
+            if real != want:
+                ck.violation("prim:%s:defaults" % c["k"], {"condition": c, "reported": repr(real), "specified": repr(want)},
+                             "%s() reports the settings %r, the specification's defaults are %r" % (SIGNATURE[c["k"]][0], real, want))
+    nopen = 0
+    tally = {}
+    states = r.printed[1:]
+    for n, st in enumerate(states):
+        sc = st["scale"]
+        sv = 0 if legacy else rot(6, n)
+        if sv == 3 and abs(sc) > 100:
+            sv = 1
+        v0 = rot(60, n, 1)
+        s = stub_spelled(st, sv)
+        before = repr(s.energy_history)
+        sat, opn = set(st["sat"]), set(st["open"])
+        if corrupt and n == len(states) // 2:
+            sat = sat ^ {min(set(range(1, len(cat) + 1)) - opn)}
+        tally[HIST_SPELLINGS[sv]] = tally.get(HIST_SPELLINGS[sv], 0) + 1
+        for i in range(len(cat)):
+            if (i + 1) in opn:
+                nopen += 1
+                continue
+            exp = (i + 1) in sat
+            v = 0 if legacy else (7 * i + v0) % 60
+            c, rb = cond(i, sc, v)
+            ok, got, info, got2 = ask(c, rb, s, exp)
+            ck.case(nontrivial=exp and len(st["hist"]) > 0, key=("h" + suffix, i, sc, tuple(st["hist"]), st["exit"]))
+            if not ok:
+                spelled = ""
+                if v or sv:        # the same abstract case in the plain spelling
+                    c0, rb0 = cond(i, sc, 0)
+                    if ask(c0, rb0, stub_spelled(st, 0), exp)[0]:
+                        spelled = ":spelling"
+                ck.violation("prim:%s%s%s" % (cat[i]["k"], suffix, spelled),
+                             {"condition": cat[i], "doc": c.__doc__, "state": st, "expected": exp,
+                              "got": got, "info": info, "rebuilt": got2, "unit": "2**%d" % sc,
+                              "history_spelling": HIST_SPELLINGS[sv], "history": repr(s.energy_history),
+                              "call_style": STYLES[v % 3]},
+                             "%s on history %r: spec says %s, mystic says %r (info %r, rebuilt %r)" % (
+                                 c.__doc__, s.energy_history, exp, got, info, got2))
+        if repr(s.energy_history) != before:
+            ck.violation("prim:history-modified" + suffix, {"state": st, "before": before, "after": repr(s.energy_history)},
+                         "asking the conditions changed the solver's energy history: %s -> %r" % (before, s.energy_history))
+        ck.trace()
+    ck.extra["open_cases_skipped[%s]" % which] = nopen
+    ck.extra["history_spellings[%s]" % which] = tally
+    k = min(7, len(states) - 1)
+    ck.sample({"run": name, "history": states[k]["hist"], "unit": "2**%d" % states[k]["scale"],
+               "satisfied": [cat[i - 1] for i in states[k]["sat"][:3]]})
+
+def pop_spelled(st, pv):
+    """the solver of population state st in spelling pv (0 = plain)"""
+    import numpy
+    s = st["scale"]
+    P = [[energy(x, s) for x in p] for p in st["pop"]]
+    E = [energy(e, s) for e in st["popE"]]
+    if pv == 4 and abs(s) > 100:
+        pv = 1
+    ident = lambda x: x
+    toint = lambda row: [int(x) if _integral(x) else x for x in row]
+    vec, popf, enf = {
+        0: (list, lambda rows: [list(r_) for r_ in rows], list),
+        1: (numpy.array, lambda rows: [numpy.array(r_) for r_ in rows], lambda e: [numpy.float64(x) for x in e]),
+        2: (numpy.array, numpy.array, numpy.array),
+        3: (toint, lambda rows: [toint(r_) for r_ in rows], toint),
+        4: (lambda r_: numpy.array(r_, dtype=numpy.float32), lambda rows: numpy.array(rows, dtype=numpy.float32), list),
+        5: (lambda r_: [-0.0 if x == 0 else x for x in r_], lambda rows: [[-0.0 if x == 0 else x for x in r_] for r_ in rows],
+            lambda e: [numpy.float64(x) for x in e]),
+    }[pv]
+    o = _Obj()
+    o.energy_history, o.generations, o._fcalls, o._EARLYEXIT = [], 0, [0], False
+    o.population = popf(P)
+    o.popEnergy = enf(E)
+    o.bestSolution = vec(P[0])
+    o.trialSolution = popf(P) if st["tp"] else vec(P[-1])
+    return o
+
+
+def sec_populations(ck, mt, a, which="base", corrupt=False):
     thorough = a.tier == "thorough"
+    legacy = getattr(a, "legacy", False)
     import warnings
     warnings.simplefilter("ignore")
     # ---------------------------------------------------------------- populations
-    r = run_tlc("term/MC_TermPop", cfg="MC_TermPop_thorough.cfg" if thorough else "MC_TermPop.cfg", workers=1, timeout=3000)
+    if which == "base":
+        cfg, name = ("MC_TermPop_thorough.cfg" if thorough else "MC_TermPop.cfg"), "TermPop"
+    else:
+        cfg, name = ("MC_TermPop_scale_thorough.cfg" if thorough else "MC_TermPop_scale.cfg"), "TermPop[units]"
+    suffix = "" if which == "base" else ":" + which
+    r = run_tlc("term/MC_TermPop", cfg=cfg, workers=1, timeout=3000)
     if r.violated:
-        ck.violation("spec:" + r.violated, {"tlc": r.out[-4000:]}, "TLC: design invariant %s violated in TermPop" % r.violated)
-    ck.mc(r, "TermPop")
+        ck.violation("spec:" + r.violated, {"tlc": r.out[-4000:]}, "TLC: design invariant %s violated in %s" % (r.violated, name))
+    ck.mc(r, name)
     tols = r.printed[0]["tols"]
-    T = [tol(t) for t in tols]
-    crt = {(i, j): mt.CandidateRelativeTolerance(xtol=T[i], ftol=T[j]) for i in range(len(T)) for j in range(len(T))}
-    spread = [mt.PopulationSpread(tolerance=t) for t in T]
-    simp = [mt.SolutionImprovement(tolerance=t) for t in T]
+    nt = len(tols)
+    cache = {}
+
+    def cond(kind, i, j, s, v):
+        key = (kind, i, j, s, v)
+        if key not in cache:
+            if kind == "crt":
+                x, y = spell_real(quantity(tols[i], s), v, s), spell_real(quantity(tols[j], s), v + 1 if v else 0, s)
+                c = mt.CandidateRelativeTolerance(x, y) if v % 3 == 1 else mt.CandidateRelativeTolerance(xtol=x, ftol=y)
+            else:
+                fac = mt.PopulationSpread if kind == "spread" else mt.SolutionImprovement
+                x = spell_real(quantity(tols[i], 0 if kind == "spread" else s), v, s)
+                c = fac(x) if v % 3 == 1 else fac(tolerance=x)
+            cache[key] = (c, rebuild(mt, c))
+        return cache[key]
+
     import io, contextlib
-    for st in r.printed[1:]:
-        pop, popE = st["pop"], st["popE"]
-        trial = [[float(x) for x in p] for p in pop] if st["tp"] else [float(x) for x in pop[-1]]
-        s = Stub(pop=pop, popE=popE, best=pop[0], trial=trial)
-        exp_crt = set(tuple(x) for x in st["v"]["crt"])
-        for (i, j), c in crt.items():
-            exp = (i + 1, j + 1) in exp_crt
+    NAMES = {"crt": "CandidateRelativeTolerance", "spread": "PopulationSpread", "simp": "SolutionImprovement"}
+    KEYS = {"crt": "pop:CRT", "spread": "pop:PopulationSpread", "simp": "pop:SolutionImprovement"}
+
+    def ask(kind, c, rb, s, exp, check_rb):
+        try:
             with contextlib.redirect_stdout(io.StringIO()):
                 got = bool(c(s))
-                got2 = bool(rebuild(mt, c)(s)) if (i + j) % 3 == 0 else got
-            ck.case(nontrivial=exp and len(pop) > 1, key=("crt", i, j, str(pop), str(popE)))
-            if got != exp or got2 != exp:
-                ck.violation("pop:CRT", {"state": st, "xtol": T[i], "ftol": T[j], "expected": exp, "got": got},
-                             "CandidateRelativeTolerance(%s,%s) pop=%s popE=%s: spec %s mystic %s" % (T[i], T[j], pop, popE, exp, got))
-        for name, lst, key in (("PopulationSpread", spread, "spread"), ("SolutionImprovement", simp, "simp")):
-            expset = set(st["v"][key])
-            for i, c in enumerate(lst):
-                exp = (i + 1) in expset
-                got = bool(c(s))
                 info = c(s, True)
-                ck.case(nontrivial=exp, key=(key, i, str(pop), st["tp"]))
-                if got != exp or info != (c.__doc__ if exp else ""):
-                    ck.violation("pop:" + name, {"state": st, "tol": T[i], "expected": exp, "got": got},
-                                 "%s(%s) pop=%s trialIsPop=%s: spec %s mystic %s" % (name, T[i], pop, st["tp"], exp, got))
+                got2 = bool(rb(s)) if check_rb else got
+        except Exception as ex:
+            got, info, got2 = "raised %r" % ex, "", None
+        ok = got is exp and got2 is exp
+        if kind != "crt" or len(s.popEnergy) > 1:       # (CRT on a single member returns its warning text)
+            ok = ok and info == (c.__doc__ if exp else "")
+        return ok, got, info, got2
+
+    tally = {}
+    states = r.printed[1:]
+    for n, st in enumerate(states):
+        sc = st["scale"]
+        pv = 0 if legacy else rot(6, n)
+        if pv == 4 and abs(sc) > 100:
+            pv = 1
+        v0 = rot(15, n, 1)
+        s = pop_spelled(st, pv)
+        label = POP_SPELLINGS[pv]
+        tally[label] = tally.get(label, 0) + 1
+        before = repr((s.population, s.popEnergy, s.bestSolution, s.trialSolution))
+        pop, popE = st["pop"], st["popE"]
+        verdicts = {"crt": set(tuple(x) for x in st["v"]["crt"]), "spread": set(st["v"]["spread"]), "simp": set(st["v"]["simp"])}
+        if corrupt and n == len(states) // 2:
+            verdicts["spread"] = verdicts["spread"] ^ {1}
+        for kind in ("crt", "spread", "simp"):
+            for i in range(nt):
+                for j in (range(nt) if kind == "crt" else (0,)):
+                    exp = ((i + 1, j + 1) if kind == "crt" else (i + 1)) in verdicts[kind]
+                    v = 0 if legacy else (v0 + 4 * i + j) % 15
+                    c, rb = cond(kind, i, j, sc, v)
+                    check_rb = kind != "crt" or (i + j) % 3 == 0
+                    ok, got, info, got2 = ask(kind, c, rb, s, exp, check_rb)
+                    if kind == "crt":
+                        ck.case(nontrivial=exp and len(pop) > 1, key=("crt" + suffix, i, j, sc, str(pop), str(popE)))
+                    else:
+                        ck.case(nontrivial=exp, key=(kind + suffix, i, sc, str(pop), st["tp"]))
+                    if not ok:
+                        spelled = ""
+                        if v or pv:
+                            c0, rb0 = cond(kind, i, j, sc, 0)
+                            if ask(kind, c0, rb0, pop_spelled(st, 0), exp, check_rb)[0]:
+                                spelled = ":spelling"
+                        ck.violation(KEYS[kind] + suffix + spelled,
+                                     {"state": st, "doc": c.__doc__, "expected": exp, "got": got, "info": info, "rebuilt": got2,
+                                      "unit": "2**%d" % sc, "population_spelling": label, "population": repr(s.population)},
+                                     "%s pop=%r popE=%r trialIsPop=%s: spec %s mystic %s (info %r, rebuilt %r)"
+                                     % (c.__doc__, s.population, s.popEnergy, st["tp"], exp, got, info, got2))
+        if repr((s.population, s.popEnergy, s.bestSolution, s.trialSolution)) != before:
+            ck.violation("pop:inputs-modified" + suffix, {"state": st, "before": before, "population_spelling": label},
+                         "asking the conditions changed the solver's population / energies / best / trial solution (%s)" % label)
         ck.trace()
-    ck.sample({"population": r.printed[9]["pop"], "energies": r.printed[9]["popE"], "verdicts": r.printed[9]["v"]})
+    ck.extra["population_spellings[%s]" % which] = tally
+    k = min(9, len(states) - 1)
+    ck.sample({"run": name, "population": states[k]["pop"], "energies": states[k]["popE"], "unit": "2**%d" % states[k]["scale"],
+               "verdicts": states[k]["v"]})
 
 def sec_trees(ck, mt, a, part=0, parts=1):
     thorough = a.tier == "thorough"
@@ -171,13 +446,24 @@ def sec_trees(ck, mt, a, part=0, parts=1):
         ck.violation("spec:" + r.violated, {"tlc": r.out[-4000:]}, "TLC: design property %s violated in TermTree" % r.violated)
     ck.mc(r, "TermTree" if parts == 1 else "TermTree[part %d/%d]" % (part + 1, parts))
     # two independent families of leaves; each leaf's truth is controlled by one stub attribute
+    # (the third family is the first one in other spellings: keywords, numpy scalars, an int tolerance that is halved)
+    import numpy
+    legacy = getattr(a, "legacy", False)
     families = [
         lambda: [mt.VTR(0.5, 0.0), mt.EvaluationLimits(generations=2), mt.SolverInterrupt()],
         lambda: [mt.ChangeOverGeneration(0.5, 1), mt.EvaluationLimits(evaluations=7), mt.NormalizedCostTarget(5.0, 0.0, 0)],
+        lambda: [mt.VTR(tolerance=numpy.float64(0.5), target=0), mt.EvaluationLimits(numpy.int64(2), None), mt.SolverInterrupt()],
     ]
+    nfam = 2 if legacy else 3
+    # a compound condition over the members ks: And(a, b) / And((a, b)) / And([a, b]); When(a) / When((a,))
+    def make_compound(op, ks, style):
+        cls = {"And": mt.And, "Or": mt.Or, "When": mt.When}[op]
+        if op == "When":
+            return cls((ks[0],)) if style == 1 else cls(ks[0])
+        return cls(*ks) if style == 0 else cls(tuple(ks)) if style == 1 else cls(list(ks))
 
     def stub_for(fam, val):
-        if fam == 0:
+        if fam in (0, 2):
             return Stub([9, 0] if val[0] else [9, 5], gens=5 if val[1] else 0, fcalls=0, exitreq=val[2])
         # fam 1: COG(0.5,1): hist[-1]-hist[-1]=0 <= .5 always true when len>1 -> control by length
         #        NCT(fval=5,tol=0): hist[-1]==5
@@ -189,7 +475,8 @@ def sec_trees(ck, mt, a, part=0, parts=1):
     rng = random.Random(a.seed)
     ntree = 0
     for st in r.printed:
-        fam = ntree % 2
+        fam = ntree % nfam
+        style = 0 if legacy else rot(3, ntree)
         ntree += 1
         leaves = families[fam]()
         ldocs = [l.__doc__ for l in leaves]
@@ -198,7 +485,7 @@ def sec_trees(ck, mt, a, part=0, parts=1):
             if t["op"] == "L":
                 return leaves[t["i"] - 1]
             kids = [mk(k) for k in t["kids"]]
-            return {"And": mt.And, "Or": mt.Or, "When": mt.When}[t["op"]](*kids)
+            return make_compound(t["op"], kids, style)
 
         def show(t):
             return "L%d" % t["i"] if t["op"] == "L" else "%s(%s)" % (t["op"], ",".join(show(k) for k in t["kids"]))
@@ -219,7 +506,7 @@ def sec_trees(ck, mt, a, part=0, parts=1):
         exp_info = set(ldocs[i - 1] for i in st["info"])
         try:
             got = bool(c(s))
-            info = docs(c(s, True))
+            info = docs(c(s, info=True) if style == 2 else c(s, True))
             rb = rebuild(mt, c)
             got_rb = bool(rb(s))
             info_rb = docs(rb(s, True))
@@ -244,6 +531,7 @@ def sec_trees(ck, mt, a, part=0, parts=1):
         if problems:
             shape = "%s-over-%s" % (tree["op"], "+".join(sorted(set(k["op"] for k in tree["kids"]))))
             ck.violation("tree:" + shape, {"tree": show(tree), "val": val, "leaf_docs": ldocs, "problems": problems,
+                                           "members_given_as": ("arguments", "one tuple", "one list")[style],
                                            "expected": {"sat": st["sat"], "info": sorted(exp_info)}},
                          "%s with leaves %s: %s" % (show(tree), val, "; ".join(problems)))
         ck.trace()
@@ -255,31 +543,158 @@ class _Bare(object):
     pass
 
 
-def sec_extra(ck, mt, a, corrupt=False):
+def sec_extra(ck, mt, a, corrupt=False, which="base"):
     """TimeLimits and GradientNormTolerance: every script of specs/term/TermExtra.tla on the real conditions.
-    The three clocks of the time module are scripted (TimeLimits binds its timer when it is created)."""
+    The three clocks of the time module are scripted (TimeLimits binds its timer when it is created).
+    which = "wide": two-digit / default limits reached exactly, recorded gradients in other units."""
     thorough = a.tier == "thorough"
-    import time as _time, datetime, warnings
+    legacy = getattr(a, "legacy", False)
+    import time as _time, datetime, warnings, numpy
     warnings.simplefilter("ignore")
-    r = run_tlc("term/MC_TermExtra", cfg="MC_TermExtra_thorough.cfg" if thorough else "MC_TermExtra_quick.cfg",
-                workers=1, timeout=3000)
+    if which == "base":
+        cfg, name = ("MC_TermExtra_thorough.cfg" if thorough else "MC_TermExtra_quick.cfg"), "TermExtra"
+    else:
+        cfg, name = ("MC_TermExtra_wide_thorough.cfg" if thorough else "MC_TermExtra_wide.cfg"), "TermExtra[wide]"
+    suffix = "" if which == "base" else ":" + which
+    r = run_tlc("term/MC_TermExtra", cfg=cfg, workers=1, timeout=3000)
     if r.violated:
-        ck.violation("spec:" + r.violated, {"tlc": r.out[-4000:]}, "TLC: design property %s violated in TermExtra" % r.violated)
-    ck.mc(r, "TermExtra")
+        ck.violation("spec:" + r.violated, {"tlc": r.out[-4000:]}, "TLC: design property %s violated in %s" % (r.violated, name))
+    ck.mc(r, name)
     INF_ = 1000000
     clocks = {"wall": 0.0, "perf": 0.0, "cpu": 0.0}
     fake = {"time": lambda: clocks["wall"], "perf_counter": lambda: clocks["perf"], "process_time": lambda: clocks["cpu"]}
     real = {k: getattr(_time, k) for k in fake}
     EPOCH = {0: {"wall": 0.0, "perf": 0.0, "cpu": 0.0}, 1: {"wall": 2.0, "perf": 0.5, "cpu": 1.25}}   # quarter seconds / 4
+    # the origin of a clock is arbitrary: also readings of the size of a real time.time() / of a month of uptime
+    ORIGIN = ({"wall": 0.0, "perf": 0.0, "cpu": 0.0}, {"wall": 1750000077.25, "perf": 2592000.0, "cpu": 4096.5})
+    DEFAULT_SECS = 345600            # 86400 s, the documented default, in quarter seconds
 
-    def make_time(secs, system):
-        for k, f in fake.items():
-            setattr(_time, k, f)
+    def faked(fn):
+        for k, f_ in fake.items():
+            setattr(_time, k, f_)
         try:
-            return mt.TimeLimits(secs, system)
+            return fn()
         finally:
-            for k, f in real.items():
-                setattr(_time, k, f)
+            for k, f_ in real.items():
+                setattr(_time, k, f_)
+
+    def time_spelled(par, m):
+        """TimeLimits for par in the spelling number m (None: the plain one); returns (condition, description, evaluable)"""
+        q = par["secs"]
+        n = m
+        if m is None or legacy:
+            form = 2 if m is None else m % 3
+            secs = (q // 4) if (form == 0 and q % 4 == 0) else datetime.timedelta(seconds=q * 0.25) if form == 1 else q * 0.25
+            system = {"wall": None, "perf": True, "cpu": False}[par["clock"]]
+            return faked(lambda: mt.TimeLimits(secs, system)), "TimeLimits(%r, %r)" % (secs, system), form != 1
+        form, sysv, kw = n % 6, (n // 6) % 3, (n // 18) % 2
+        x = q * 0.25
+        secs = ((q // 4) if q % 4 == 0 else x, datetime.timedelta(seconds=x), x, numpy.float64(x),
+                numpy.int64(q // 4) if q % 4 == 0 else numpy.float32(x), x)[form]
+        omit_secs = form == 5 and q == DEFAULT_SECS
+        system = {"wall": (None, None, None), "perf": (True, 1, True), "cpu": (False, 0, False)}[par["clock"]][sysv]
+        omit_sys = par["clock"] == "wall" and sysv == 1
+        args, kwds = [], {}
+        if not omit_secs:
+            if kw:
+                kwds["seconds"] = secs
+            else:
+                args.append(secs)
+        if not omit_sys:
+            if kw or omit_secs:
+                kwds["system"] = system
+            else:
+                args.append(system)
+        descr = "TimeLimits(%s)" % ", ".join([repr(x_) for x_ in args] + ["%s=%r" % kv for kv in kwds.items()])
+        return faked(lambda: mt.TimeLimits(*args, **kwds)), descr, form != 1
+
+    def play_time(par, script, n, m, origin):
+        """the first step where the real condition disagrees with the script, or None"""
+        clocks.update(EPOCH[par["epoch"]])
+        for c in clocks:
+            clocks[c] += ORIGIN[origin][c]
+        cond, descr, evaluable = time_spelled(par, m)
+        inst = _Bare()
+        for k, st in enumerate(script):
+            if st["op"] == "tick":
+                clocks[st["clock"]] += st["d"] * 0.25
+            elif st["op"] == "tickall":
+                for c in clocks:
+                    clocks[c] += st["d"] * 0.25
+            else:
+                cond.reset()
+            try:
+                got, info = bool(cond(inst)), cond(inst, True)
+            except Exception as ex:
+                got, info = "raised %r" % ex, ""
+            exp = bool(st["v"])
+            if m is not None:
+                ck.case(nontrivial=exp or st["op"] == "reset", key=("time" + suffix, n, k))
+            if got is not exp or info != (cond.__doc__ if exp else ""):
+                return cond, descr, evaluable, (k, exp, got, info)
+        return cond, descr, evaluable, None
+
+    def grad_spelled(par, n):
+        tolv = quantity(par["tol"], par["sc"])
+        norm = float("inf") if par["norm"] == INF_ else par["norm"]
+        if n is None or legacy:
+            return mt.GradientNormTolerance(tolerance=tolv, norm=norm), "GradientNormTolerance(tolerance=%r, norm=%r)" % (tolv, norm)
+        nv, kw = n % 4, (n // 4) % 2
+        t = spell_real(tolv, n // 8, par["sc"])
+        if par["norm"] == INF_:
+            nm = (float("inf"), numpy.inf, None, numpy.float64("inf"))[nv]       # None: left out (the documented default)
+        else:
+            nm = (int(norm), float(norm), numpy.int64(norm), numpy.float64(norm))[nv]
+        if nm is None:
+            return (mt.GradientNormTolerance(tolerance=t) if kw else mt.GradientNormTolerance(t)), "GradientNormTolerance(%r)" % (t,)
+        return (mt.GradientNormTolerance(tolerance=t, norm=nm) if kw else mt.GradientNormTolerance(t, nm)), \
+            "GradientNormTolerance(%r, %r)" % (t, nm)
+
+    GRAD_SPELLINGS = ("list[float]", "ndarray", "tuple", "list[int where integral]", "ndarray float32")
+
+    def grad_value(g, sc, gv):
+        base = [energy(v, sc) for v in g]
+        if gv == 1:
+            return numpy.array(base)
+        if gv == 2:
+            return tuple(base)
+        if gv == 3:
+            return [int(x) if _integral(x) else x for x in base]
+        if gv == 4 and abs(sc) <= 100:
+            return numpy.array(base, dtype=numpy.float32)
+        return base
+
+    def play_grad(par, script, n, m):
+        nonlocal nskip
+        cond, descr = grad_spelled(par, m)
+        cond2 = rebuild(mt, cond)
+        inst = _Bare()
+        if par["stored"]:
+            inst.gradient = []
+        for k, st in enumerate(script):
+            if par["stored"]:
+                gv = 0 if m is None else ((m + k) % 2 if legacy else (m // 40 + k) % 5)
+                g = grad_value(st["g"], par["sc"], gv)
+                inst.gradient.append(g)
+            else:
+                g = [float(v) for v in st["g"]]
+                if st["b"]:
+                    if m is not None:
+                        nskip += 1           # a numerical gradient cannot decide a case ON the boundary
+                    continue
+                inst.bestSolution = [0.5 + 0.25 * i for i in range(len(g))]
+                inst._cost = (None, (lambda x, g=g: 1.0 + sum(c * float(v) for c, v in zip(g, x))), None)
+            exp = bool(st["v"])
+            try:
+                got, info, got2 = bool(cond(inst)), cond(inst, True), bool(cond2(inst))
+            except Exception as ex:
+                got, info, got2 = "raised %r" % ex, "", None
+            if m is not None:
+                ck.case(nontrivial=exp, key=("grad" + suffix, n, k))
+            if got is not exp or got2 is not exp or info != (cond.__doc__ if exp else ""):
+                return cond, descr, (k, exp, got, info, got2, repr(g))
+        return cond, descr, None
+
     nskip = 0
     for n, sc in enumerate(r.printed):
         par, script = sc["par"], sc["script"]
@@ -287,108 +702,108 @@ def sec_extra(ck, mt, a, corrupt=False):
             script = [dict(st) for st in script]
             script[-1]["v"] = not script[-1]["v"]
         if sc["kind"] == "time":
-            clocks.update(EPOCH[par["epoch"]])
-            q = par["secs"]
-            form = n % 3
-            secs = (q // 4) if (form == 0 and q % 4 == 0) else datetime.timedelta(seconds=q * 0.25) if form == 1 else q * 0.25
-            system = {"wall": None, "perf": True, "cpu": False}[par["clock"]]
-            cond = make_time(secs, system)
-            inst = _Bare()
-            for k, st in enumerate(script):
-                if st["op"] == "tick":
-                    clocks[st["clock"]] += st["d"] * 0.25
-                elif st["op"] == "tickall":
-                    for c in clocks:
-                        clocks[c] += st["d"] * 0.25
-                else:
-                    cond.reset()
-                got, info = bool(cond(inst)), cond(inst, True)
-                exp = bool(st["v"])
-                ck.case(nontrivial=exp or st["op"] == "reset", key=("time", n, k))
-                if got != exp or info != (cond.__doc__ if exp else ""):
-                    ck.violation("extra:TimeLimits:%s" % ("after-reset" if any(x["op"] == "reset" for x in script[:k + 1]) else par["clock"]),
-                                 {"params": par, "seconds": repr(secs), "system": system, "script": script, "step": k,
-                                  "expected": exp, "got": got, "info": info},
-                                 "TimeLimits(%r, system=%r) after %s: spec %s, mystic %s (info %r)"
-                                 % (secs, system, [(x["op"], x["clock"], x["d"]) for x in script[:k + 1]], exp, got, info))
-                    break
+            m = n if legacy else rot(720, n)
+            origin = 0 if legacy else (m // 36) % 2
+            cond, descr, evaluable, bad = play_time(par, script, n, m, origin)
+            if bad:
+                k, exp, got, info = bad
+                spelled = ":spelling" if play_time(par, script, n, None, 0)[3] is None else ""
+                ck.violation("extra:TimeLimits:%s%s%s" % ("after-reset" if any(x["op"] == "reset" for x in script[:k + 1]) else par["clock"],
+                                                          suffix, spelled),
+                             {"params": par, "call": descr, "script": script, "step": k, "clock_origin": ORIGIN[origin],
+                              "expected": exp, "got": got, "info": info},
+                             "%s after %s: spec %s, mystic %s (info %r)"
+                             % (descr, [(x["op"], x["clock"], x["d"]) for x in script[:k + 1]], exp, got, info))
             # rebuilt from its reported state: a NEW counter (it starts now)
-            if n % 5 == 0 and form != 1:     # (state() evaluates the repr of the settings: a timedelta has no evaluable repr there)
-                for k_, f in fake.items():
-                    setattr(_time, k_, f)
-                try:
-                    again = rebuild(mt, cond)
-                finally:
-                    for k_, f in real.items():
-                        setattr(_time, k_, f)
+            if n % 5 == 0 and evaluable:     # (state() evaluates the repr of the settings: a timedelta has no evaluable repr there)
+                inst = _Bare()
+                again = faked(lambda: rebuild(mt, cond))
                 exp0 = par["secs"] <= 0
                 if again.__doc__ != cond.__doc__ or bool(again(inst)) != exp0:
-                    ck.violation("extra:TimeLimits:rebuilt", {"params": par, "doc": cond.__doc__, "rebuilt_doc": again.__doc__},
+                    ck.violation("extra:TimeLimits:rebuilt" + suffix, {"params": par, "doc": cond.__doc__, "rebuilt_doc": again.__doc__},
                                  "TimeLimits rebuilt from state %r: doc %r, satisfied at once %s (spec %s)"
                                  % (cond.__doc__, again.__doc__, bool(again(inst)), exp0))
             ck.trace()
             continue
         # ---- GradientNormTolerance
-        tolv = par["tol"][0] / float(par["tol"][1])
-        norm = float("inf") if par["norm"] == INF_ else par["norm"]
-        cond = mt.GradientNormTolerance(tolerance=tolv, norm=norm)
-        cond2 = rebuild(mt, cond)
-        inst = _Bare()
-        if par["stored"]:
-            inst.gradient = []
-        for k, st in enumerate(script):
-            g = [float(v) for v in st["g"]]
-            if par["stored"]:
-                inst.gradient.append(g if (n + k) % 2 else __import__("numpy").array(g))
-            else:
-                if st["b"]:
-                    nskip += 1           # a numerical gradient cannot decide a case ON the boundary
-                    continue
-                inst.bestSolution = [0.5 + 0.25 * i for i in range(len(g))]
-                inst._cost = (None, (lambda x, g=g: 1.0 + sum(c * float(v) for c, v in zip(g, x))), None)
-            exp = bool(st["v"])
-            got, info, got2 = bool(cond(inst)), cond(inst, True), bool(cond2(inst))
-            ck.case(nontrivial=exp, key=("grad", n, k))
-            if got != exp or got2 != exp or info != (cond.__doc__ if exp else ""):
-                ck.violation("extra:GradientNormTolerance:norm=%s:%s" % (norm, "recorded-gradient" if par["stored"] else "gradient-of-cost"),
-                             {"params": par, "script": script, "step": k, "expected": exp, "got": got, "rebuilt": got2, "info": info},
-                             "GradientNormTolerance(%s, norm=%s) with gradient %s (%s): spec %s, mystic %s (rebuilt %s)"
-                             % (tolv, norm, g, "recorded" if par["stored"] else "of a linear cost", exp, got, got2))
-                break
+        m = n if legacy else rot(720, n)
+        cond, descr, bad = play_grad(par, script, n, m)
+        if bad:
+            k, exp, got, info, got2, g = bad
+            spelled = ":spelling" if play_grad(par, script, n, None)[2] is None else ""
+            norm = float("inf") if par["norm"] == INF_ else par["norm"]
+            ck.violation("extra:GradientNormTolerance:norm=%s:%s%s%s" % (norm, "recorded-gradient" if par["stored"] else "gradient-of-cost",
+                                                                         suffix, spelled),
+                         {"params": par, "call": descr, "script": script, "step": k, "gradient": g, "unit": "2**%d" % par["sc"],
+                          "expected": exp, "got": got, "rebuilt": got2, "info": info},
+                         "%s with gradient %s (%s): spec %s, mystic %s (rebuilt %s)"
+                         % (descr, g, "recorded" if par["stored"] else "of a linear cost", exp, got, got2))
         ck.trace()
-    ck.extra["extra_boundary_steps_not_decidable_numerically"] = nskip
+    ck.extra["extra_boundary_steps_not_decidable_numerically" + ("" if which == "base" else "[wide]")] = nskip
     if r.printed:
-        ck.sample({"TermExtra_script": r.printed[len(r.printed) // 2]})
+        ck.sample({"run": name, "TermExtra_script": r.printed[len(r.printed) // 2]})
 
 
-def explore(ck, mt, a):
-    """quick: the three sections one after the other; thorough: the sections (and four parts of the tree catalogue) in
-    forked children running side by side, merged into ck"""
+SECTIONS = {
+    "hist": lambda c, mt, a, corrupt: sec_histories(c, mt, a, "base"),
+    "pop": lambda c, mt, a, corrupt: sec_populations(c, mt, a, "base"),
+    "trees": lambda c, mt, a, corrupt: sec_trees(c, mt, a),
+    "extra": lambda c, mt, a, corrupt: sec_extra(c, mt, a, corrupt=(corrupt == "extra")),
+    # the parts at other magnitudes / lengths (each with its own TLC run)
+    "hist:scale": lambda c, mt, a, corrupt: sec_histories(c, mt, a, "scale", corrupt=(corrupt == "hist:scale")),
+    "hist:long": lambda c, mt, a, corrupt: sec_histories(c, mt, a, "long"),
+    "pop:scale": lambda c, mt, a, corrupt: sec_populations(c, mt, a, "scale", corrupt=(corrupt == "pop:scale")),
+    "extra:wide": lambda c, mt, a, corrupt: sec_extra(c, mt, a, which="wide"),
+}
+BASE = ("hist", "pop", "trees", "extra")
+WIDE = ("hist:scale", "hist:long", "pop:scale", "extra:wide")
+
+
+def explore(ck, mt, a, only=None):
+    """quick: the four base sections one after the other, the parts at other magnitudes meanwhile in forked children;
+    thorough: every section (and four parts of the tree catalogue) in forked children running side by side, merged into ck.
+    a.legacy: only the base sections, every input in its one plain spelling (the enumeration before the spellings rotated)"""
     ck.exhaustive = True
     thorough = a.tier == "thorough"
+    corrupt = getattr(a, "corrupt", None)
+    wanted = [x for x in (BASE if getattr(a, "legacy", False) else BASE + WIDE) if only is None or x in only]
+    from harness.c08_nmpw import _Forked
+
+    def forked(name):
+        fn = SECTIONS[name]
+        return _Forked(lambda c, a_, corrupt_, light: fn(c, mt, a_, corrupt), ck, a)
     if not thorough or getattr(a, "selftest", False):
-        sec_histories(ck, mt, a)
-        sec_populations(ck, mt, a)
-        sec_trees(ck, mt, a)
-        sec_extra(ck, mt, a, corrupt=(getattr(a, "corrupt", None) == "extra"))
+        jobs = [forked(x) for x in wanted if x in WIDE] if getattr(a, "jobs", 1) > 1 else []
+        for x in wanted:
+            if x in BASE or not jobs:
+                SECTIONS[x](ck, mt, a, corrupt)
+        for j in jobs:
+            j.join()
     else:
-        from harness.c08_nmpw import _Forked
         parts = 4
-        jobs = [_Forked(lambda c, a_, corrupt, light: sec_histories(c, mt, a_), ck, a),
-                _Forked(lambda c, a_, corrupt, light: sec_populations(c, mt, a_), ck, a),
-                _Forked(lambda c, a_, corrupt, light: sec_extra(c, mt, a_), ck, a)]
+        jobs = [forked(x) for x in wanted if x != "trees"]
         for p in range(parts):
             jobs.append(_Forked((lambda p: lambda c, a_, corrupt, light: sec_trees(c, mt, a_, p, parts))(p), ck, a))
         for j in jobs:
             j.join()
-    ck.assumptions = ["tolerances are dyadic rationals >= 0 and energies small integers or +inf, so IEEE arithmetic is exact",
+    ck.assumptions = ["tolerances are dyadic rationals >= 0 and energies small integers (negative ones too) or +inf, times a "
+                      "power of two (the unit of the model: 2**0, and 2**-1000, 2**-30, 2**-20, 2**33, 2**996 in the parts "
+                      "at other magnitudes), so IEEE arithmetic is exact; the no-argument defaults 0.005, 1e-6, 1e-4 are "
+                      "compared with energies of 1 and 2 units of 2**-20, never on a boundary",
                       "NormalizedChangeOverGeneration is specified in its implemented cross-multiplied form with IEEE "
-                      "semantics for +inf (the documented quotient form is 0/0 or inf/inf there)",
+                      "semantics for +inf (the documented quotient form is 0/0 or inf/inf there); its regularisation "
+                      "eta=1e-20 is not in the documented formula: for units below 2**-40 the specification leaves its "
+                      "verdict open and those cases are skipped (counted as open_cases_skipped)",
+                      "spellings: every input is replayed in rotating concrete spellings (see the module doc string); "
+                      "numpy.float32 only where the whole state fits float32 (numpy compares a python float with a float32 "
+                      "in float32, so a 1e-301 history against a float32 tolerance is a question about numpy, not mystic)",
                       "TimeLimits is driven with scripted clocks (time.time / perf_counter / process_time replaced while the "
-                      "condition is created); seconds are quarter seconds given as int, float or timedelta; a condition "
-                      "rebuilt from its state is a new counter",
-                      "GradientNormTolerance: norms 1, 2, inf on small integer gradients (recorded by the solver, or of a "
-                      "linear cost through the numerical gradient, where cases ON the boundary are not decidable and skipped)",
+                      "condition is created); seconds are quarter seconds given as int, float, numpy scalar or timedelta, or "
+                      "left out (86400); the origin of each clock is arbitrary (also 1.75e9); a condition rebuilt from its "
+                      "state is a new counter",
+                      "GradientNormTolerance: norms 1, 2, inf on small integer gradients (recorded by the solver, in units "
+                      "2**0, 2**-30, 2**33; or of a linear cost through the numerical gradient, where cases ON the boundary "
+                      "are not decidable and skipped)",
                       "the Collapse* conditions are not leaves here (C11 covers them); in the tree section the leaves are "
                       "VTR / EvaluationLimits / SolverInterrupt / ChangeOverGeneration / NormalizedCostTarget"]
 
@@ -472,48 +887,101 @@ def selftest(a, mt):
 
     import inspect, textwrap
 
-    def patched(name, old_, new_):
+    def patched(name, *pairs):
         def mut():
             src = textwrap.dedent(inspect.getsource(orig[name]))
-            assert src.count(old_) == 1, (name, old_)
+            for old_, new_ in zip(pairs[::2], pairs[1::2]):
+                assert src.count(old_) == 1, (name, old_, src.count(old_))
+                src = src.replace(old_, new_)
             ns = dict(vars(mt))
-            exec(compile(src.replace(old_, new_), "<mutant %s>" % name, "exec"), ns)
+            exec(compile(src, "<mutant %s>" % name, "exec"), ns)
             setattr(mt, name, ns[name])
         return mut
 
-    mutants = [("TimeLimits >= becomes >", patched("TimeLimits", ">= delta[0]", "> delta[0]")),
-               ("TimeLimits system=True uses the wall clock", patched("TimeLimits", "timer = time.perf_counter", "timer = time.time")),
-               ("TimeLimits reset() does nothing", patched("TimeLimits", "start[0] = timer()\n    delta", "pass\n    delta")),
-               ("GradientNormTolerance <= becomes <", patched("GradientNormTolerance", "gnorm <= tolerance", "gnorm < tolerance")),
-               ("GradientNormTolerance ignores norm", patched("GradientNormTolerance", "p=norm", "p=inf")),
-               ("GradientNormTolerance reads the FIRST recorded gradient", patched("GradientNormTolerance", "[None])[-1]", "[None])[0]")),
-               ("ChangeOverGeneration window off by one (lg <= g -> lg < g)", m_cog_window),
-               ("VTR <= becomes <", m_vtr_strict),
-               ("Or reports info of unsatisfied members", m_or_info_all),
-               ("And evaluated as any()", m_and_any),
-               ("CandidateRelativeTolerance xtol OR ftol", m_crt_and_or),
-               ("EvaluationLimits >= becomes >", m_el_gt)]
+    def corrupted(what):
+        def mut():
+            a.corrupt = what
+        return mut
+
+    H, P, T, X = ("hist", "hist:scale", "hist:long"), ("pop", "pop:scale"), ("trees",), ("extra", "extra:wide")
+    # (name, mutation, the sections that are run for it, new: must be caught by what this round added and is shown to be
+    #  missed by the enumeration before it - one plain spelling per input, unit 1, short histories)
+    mutants = [("TimeLimits >= becomes >", patched("TimeLimits", ">= delta[0]", "> delta[0]"), X, False),
+               ("TimeLimits system=True uses the wall clock", patched("TimeLimits", "timer = time.perf_counter", "timer = time.time"), X, False),
+               ("TimeLimits reset() does nothing", patched("TimeLimits", "start[0] = timer()\n    delta", "pass\n    delta"), X, False),
+               ("GradientNormTolerance <= becomes <", patched("GradientNormTolerance", "gnorm <= tolerance", "gnorm < tolerance"), X, False),
+               ("GradientNormTolerance ignores norm", patched("GradientNormTolerance", "p=norm", "p=inf"), X, False),
+               ("GradientNormTolerance reads the FIRST recorded gradient", patched("GradientNormTolerance", "[None])[-1]", "[None])[0]"), X, False),
+               ("ChangeOverGeneration window off by one (lg <= g -> lg < g)", m_cog_window, H, False),
+               ("VTR <= becomes <", m_vtr_strict, H, False),
+               ("Or reports info of unsatisfied members", m_or_info_all, T, False),
+               ("And evaluated as any()", m_and_any, T, False),
+               ("CandidateRelativeTolerance xtol OR ftol", m_crt_and_or, P, False),
+               ("EvaluationLimits >= becomes >", m_el_gt, H, False),
+               # ---- spellings and magnitudes
+               ("VTR: 'tolerance or 0.005' (a tolerance of 0 taken as missing)",
+                patched("VTR", 'doc = "VTR with', 'tolerance = tolerance or 0.005\n    doc = "VTR with'), H, True),
+               ("NormalizedCostTarget: tolerance*fval without abs (negative fval)",
+                patched("NormalizedCostTarget", "abs(tolerance * fval)", "(tolerance * fval)"), H, True),
+               ("ChangeOverGeneration: window only from a python int (numpy.int64 / float generations taken as 0)",
+                patched("ChangeOverGeneration", "gens = 0 if generations is None else int(generations)",
+                        "gens = generations if isinstance(generations, int) else 0"), H, True),
+               ("NormalizedChangeOverGeneration: default generations 10 becomes 1",
+                patched("NormalizedChangeOverGeneration", "generations=10)", "generations=1)"), H, True),
+               ("PopulationSpread works on an integer array",
+                patched("PopulationSpread", "sim = numpy.array(inst.population)", "sim = numpy.array(inst.population, dtype=int)"), P, True),
+               ("CandidateRelativeTolerance subtracts in place in the caller's population array",
+                patched("CandidateRelativeTolerance", "sim = numpy.array(inst.population)", "sim = numpy.asarray(inst.population)",
+                        "answer = max(numpy.ravel(abs(sim[1:]-sim[0]))) <= xtol",
+                        "sim[1:] -= sim[0]; answer = max(numpy.ravel(abs(sim[1:]))) <= xtol"), P, True),
+               ("TimeLimits keeps its start as float32 (a clock reading of the size of time.time())",
+                patched("TimeLimits", "start = [timer()]", "start = [numpy.float32(timer())]"), X, True),
+               ("TimeLimits: default seconds 86400 becomes 8640",
+                patched("TimeLimits", "seconds=86400", "seconds=8640"), X, True),
+               ("And no longer unwraps a single tuple of members (And((a, b)))",
+                patched("And", "    if isinstance(args, tuple) and len(args) == 1: args = args[0] # for pickling\n", ""), T, True),
+               # ---- corrupted expected values from TLC
+               ("a script verdict from TLC (TermExtra) flipped", corrupted("extra"), ("extra",), False),
+               ("a satisfied-set from TLC (TermMachine at other units) changed", corrupted("hist:scale"), ("hist:scale",), False),
+               ("a verdict from TLC (TermPop at other units) flipped", corrupted("pop:scale"), ("pop:scale",), False)]
     or_call, and_call = mt.Or.__dict__.get("__call__"), mt.And.__dict__.get("__call__")
     missed = 0
     import io, contextlib
-    for name, mut in mutants:
-        mut()
+
+    def run(only, legacy):
         ck = new_check(a)
-        buf = io.StringIO()
-        with contextlib.redirect_stdout(buf):
+        a.legacy = legacy
+        with contextlib.redirect_stdout(io.StringIO()):
             try:
-                explore(ck, mt, a)
+                explore(ck, mt, a, only=only)
             except Exception as ex:       # a mutant that makes mystic raise is caught as well
                 print('mutant raised', repr(ex)); ck.violations += 1
-        for k in ("ChangeOverGeneration", "VTR", "CandidateRelativeTolerance", "EvaluationLimits", "TimeLimits", "GradientNormTolerance"):
-            setattr(mt, k, orig[k])
+        a.legacy = False
+        return ck
+
+    import os
+    flt = os.environ.get("C10_SELFTEST_ONLY")        # (development aid: only the mutants whose name contains this)
+    for name, mut, only, new in mutants:
+        if flt and flt not in name:
+            continue
+        a.corrupt = None
+        mut()
+        ck = run(only, False)
+        old = run(only, True) if new else None
+        for k in orig:
+            if getattr(mt, k, None) is not orig[k]:
+                setattr(mt, k, orig[k])
         mt.Or.__call__ = or_call
         if and_call is None:
             try: del mt.And.__call__
             except AttributeError: pass
-        print("SELFTEST %s: %s (%d violations)" % (name, "caught" if ck.violations else "MISSED", ck.violations))
+        a.corrupt = None
+        note = "" if old is None else "; with one plain spelling per input at unit 1 (the enumeration before): %s" % (
+            "missed" if not old.violations else "caught as well (%d)" % old.violations)
+        print("SELFTEST %s: %s (%d violations: %s%s)" % (name, "caught" if ck.violations else "MISSED", ck.violations,
+                                                        ", ".join(sorted(ck.viol_keys)[:4]), note))
+        sys.stdout.flush()
         missed += 0 if ck.violations else 1
-    import shutil, os
     return 1 if missed else 0
 
 
